@@ -341,3 +341,64 @@ mutant('C07-R6-reset-after-eos-drops-data', ['C07', 'C09'], ['C07.R6|after-reset
                     Cause::Error(error)
                 });''', '''                let _ = recv_end_stream;
                 self.inner = Closed(Cause::Error(error));''')])
+
+# ---------------------------------------------------------------- C02 / C16
+mutant('C02-R1-ignores-stream-window', ['C02'], ['C02.R1|take|bounds'],
+       'pop_frame no longer limits the DATA length to the stream\'s available window',
+       [(S + 'prioritize.rs', '''                            let len =
+                                cmp::min(len, stream_capacity.as_size() as usize) as WindowSize;''', '''                            let len = len as WindowSize;''')])
+mutant('C02-R1-peer-window-check-dropped', ['C02'], ['C02.R1|take|peer-window'],
+       'pop_frame no longer compares the length with the window the peer knows',
+       [(S + 'prioritize.rs', '''                            if len > 0 && len > stream.send_flow.window_size() {
+                                stream.pending_send.push_front(buffer, frame.into());
+                                continue;
+                            }
+''', '')])
+mutant('C02-R2-connection-window-not-charged', ['C02'], ['C02.R2|pair|send_data|conn'],
+       'pop_frame does not charge the connection window for the bytes sent',
+       [(S + 'prioritize.rs', '''                                    let _res = self.flow.send_data(len);
+                                    debug_assert!(_res.is_ok());
+''', '')])
+mutant('C02-R3-zero-window-sends', ['C02'], ['C02.R3|zero-window'],
+       'a non-empty DATA frame is processed although the stream window is zero',
+       [(S + 'prioritize.rs', '''                                stream.pending_send.push_front(buffer, frame.into());
+
+                                continue;
+                            }
+
+                            // Only send up to the max frame length''', '''                            }
+
+                            // Only send up to the max frame length''')])
+mutant('C02-R5-window-decrease-not-applied', ['C02'], ['C02.R5|delta|decrease'],
+       'a lowered SETTINGS_INITIAL_WINDOW_SIZE is stored but not subtracted from open streams',
+       [(S + 'send.rs', '''                        stream
+                            .send_flow
+                            .dec_send_window(dec)
+                            .map_err(proto::Error::library_go_away)?;
+''', '')])
+mutant('C16-R1-reclaim-leaks-connection-window', ['C16'], ['C16.R1|take-back|proto::streams::prioritize::Prioritize::reclaim_reserved_capacity'],
+       'reclaim_reserved_capacity takes capacity from the stream without handing it to the connection (0.4.14 leak)',
+       [(S + 'prioritize.rs', '''                .expect("window size should be greater than reserved");
+
+            self.assign_connection_capacity(reserved, stream, counts);''', '''                .expect("window size should be greater than reserved");
+            let _ = counts;''')])
+mutant('C16-R2-capacity-for-pending-open', ['C16'], ['C16.R2|grant|not-pending-open'],
+       'streams waiting to be opened are granted connection capacity (0.4.13 starvation)',
+       [(S + 'prioritize.rs', '''        if stream.is_pending_open {
+            return;
+        }
+
+        let total_requested''', '''        let total_requested''')])
+mutant('C16-R3-trailers-keep-capacity', ['C16'], ['C16.R3|reclaim|proto::streams::send::Send::send_trailers'],
+       'send_trailers closes the send half without returning reserved capacity',
+       [(S + 'send.rs', '''        // Release any excess capacity
+        self.prioritize.reserve_capacity(0, stream, counts);
+''', '')])
+mutant('C16-R4-poll-capacity-zero', ['C16'], ['C16.R4|nonzero'],
+       'poll_capacity can report Ready(Some(Ok(0))) (0.4.15 fix reverted)',
+       [(S + 'send.rs', '''        if capacity == 0 {
+            stream.wait_send(cx);
+            return Poll::Pending;
+        }
+
+        Poll::Ready(Some(Ok(capacity)))''', '''        Poll::Ready(Some(Ok(capacity)))''')])
